@@ -43,6 +43,13 @@ def t_struct(chk, ix):
     rules_parser.check_cell_roundtrip(chk, ix)
     rules_parser.check_table_render_roundtrip(chk, ix)
     rules_parser.check_tag_line(chk, ix, chk.tier)
+    rules_parser.check_parse_tags_entry(chk, ix)
+    rules_parser.check_model_adders(chk, ix)
+    # a parse function returns a fresh model for the text it is given: it keeps no memo (the result is mutable, a file
+    # may change between two calls)
+    from .. import rules_generic
+    rules_generic.check_memoryless(chk, ix, ["behave.parser:parse_file", "behave.parser:parse_feature", "behave.parser:parse_rule",
+                                             "behave.parser:parse_scenario", "behave.parser:parse_steps", "behave.parser:parse_tags"])
 
 
 def run(chk, ix, tier):
@@ -57,3 +64,5 @@ def run(chk, ix, tier):
     chk.require_instances("P8", 10)
     chk.require_instances("P9", 11)
     chk.require_instances("P10", 4)
+    chk.require_instances("P11", 8)
+    chk.require_instances("RF8", 6)
